@@ -15,7 +15,8 @@
 
    The client runs a fixed *script* (chosen in Init): a sequence of calls, each [m, ops] with ops the client
    operations on the stream session:  "t" tick/exchange, "c" close, "x" cancel, "i" iterate to the end,
-   for unary calls ops = <<>> or <<"L">> (the client's log callback raises).  After the script a probe
+   for unary calls ops = <<>> or <<"L">> (the client's log callback raises).  Ops left over when the session has
+   ended (by close/cancel, or by itself: stop / error) are applied to the ended session (CPost).  After the script a probe
    unary call is made.  obs is the client-observable history; it is a function of the script (lock-step).
 
    World flag VerMismatch: the server declares a protocol version the client does not match, so every call
@@ -71,6 +72,9 @@ Ticks(k) == IF k = 0 THEN <<>> ELSE <<"t">> \o Ticks(k - 1)
 OpsFor(m) == IF m.k = "unary" THEN (IF m.u \in {"logok", "lograise"} THEN {<<>>, <<"L">>} ELSE {<<>>})
              ELSE {Ticks(k) \o <<e>> : k \in 0..MaxTicks, e \in {"c", "x"}}
                   \cup (IF m.k = "prod" THEN {<<"i">>, <<"t", "i">>} ELSE {})
+                  \* operations on a session that has already ended: close()/cancel() again (idempotent, nothing may
+                  \* reach the wire), tick()/exchange() on a closed session (refused locally)
+                  \cup {Ticks(k) \o <<e, e2>> : k \in 0..1, e \in {"c", "x"}, e2 \in {"c", "x", "t"}}
                   \* "L" first: the client's log callback raises on every log batch it is handed (also while draining)
                   \cup (IF \E j \in 1..Len(m.steps) : m.steps[j] \in {"logemit", "log2emit", "lograise"}
                         THEN {<<"L", "t", "c">>, <<"L", "t", "x">>} ELSE {})
@@ -98,8 +102,9 @@ Own(item) == badResp' = (badResp \/ item.cid # cli.cid)
 
 \* ========================================================================================== client
 \* ---- start the next call: write the request stream
+PostPending == cli.pc = "idle" /\ cli.ip >= 1 /\ cli.ip <= Len(script) /\ CurM.k # "unary" /\ cli.op < Len(Ops)
 CStart ==
-  /\ cli.pc = "idle" /\ cli.ip < NCalls
+  /\ cli.pc = "idle" /\ cli.ip < NCalls /\ ~PostPending
   /\ LET i == cli.ip + 1  m == Meth(Call(i).m) IN
      /\ c2s' = Append(c2s, [t |-> "req", m |-> m.n, cid |-> i])
      /\ Obs(<<"call">>)                  \* history marker: a new call starts (lets histories be compared call by call)
@@ -137,9 +142,20 @@ CReadHeader ==
      /\ IF x.t = "S"
         THEN /\ Own(x) /\ UNCHANGED broken
              /\ Obs(<<x.k, x.logs>>)
-             /\ cli' = [cli EXCEPT !.pc = IF x.k = "hdr" THEN "sess" ELSE "idle"]
-        ELSE /\ broken' = TRUE /\ Obs(<<"transport_error">>) /\ cli' = [cli EXCEPT !.pc = "idle"] /\ UNCHANGED badResp
+             /\ cli' = [cli EXCEPT !.pc = IF x.k = "hdr" THEN "sess" ELSE "idle",
+                                   !.op = IF x.k = "hdr" THEN @ ELSE Len(Ops)]       \* no session object: leftover ops moot
+        ELSE /\ broken' = TRUE /\ Obs(<<"transport_error">>) /\ cli' = [cli EXCEPT !.pc = "idle", !.op = Len(Ops)]
+             /\ UNCHANGED badResp
   /\ UNCHANGED <<c2s, srv, script>>
+
+\* ---- operations on a session that has ended: close()/cancel() are no-ops, tick()/exchange()/iteration are refused
+\*      locally; nothing is written to or read from the connection
+CPost ==
+  /\ PostPending
+  /\ cli' = [cli EXCEPT !.op = @ + 1]
+  /\ IF Ops[cli.op + 1] \in {"t", "i"} /\ ~(Ops[cli.op + 1] = "i" /\ cli.how = "i")     \* (the iteration that just ended)
+     THEN Obs(<<"closed_error">>) ELSE UNCHANGED obs
+  /\ UNCHANGED <<c2s, s2c, srv, script, badResp, broken>>
 
 \* ---- session operations, taken from the script
 NextOp == IF cli.op < Len(Ops) THEN Ops[cli.op + 1] ELSE "c"        \* scripts always end by leaving through close()
@@ -213,7 +229,7 @@ CDrain ==
                [] OTHER      -> broken' = TRUE /\ cli' = [cli EXCEPT !.pc = "idle"] /\ UNCHANGED badResp
   /\ UNCHANGED <<c2s, srv, script, obs>>
 
-Client == CStart \/ CReadUnary \/ CLeak \/ CReadHeader \/ CTick \/ CClose \/ CCancel \/ CReadOut \/ CDrain
+Client == CStart \/ CReadUnary \/ CLeak \/ CReadHeader \/ CPost \/ CTick \/ CClose \/ CCancel \/ CReadOut \/ CDrain
 
 \* ========================================================================================== server
 Push(x) == s2c' = Append(s2c, x)
